@@ -506,6 +506,32 @@ impl Fam for BTreeMap<String, BTreeMap<String, Vec<BTreeMap<String, i64>>>> {
     }
 }
 
+/// None inside a tuple / a fixed-size array (sequences without being Vec): unsupported like None in a Vec
+#[derive(Serialize, Deserialize, PartialEq, Debug, Clone)]
+pub struct U3 {
+    pub t: (Option<i64>, i64),
+    pub a: [Option<i64>; 2],
+    pub n: i64,
+}
+impl Fam for U3 {
+    const NAME: &'static str = "U3{t: (Option<i64>, i64), a: [Option<i64>; 2], n}";
+    fn all(_tier: Tier) -> Vec<Self> {
+        let o = [None, Some(0i64), Some(-3)];
+        let mut v = Vec::new();
+        for t0 in o {
+            for a0 in o {
+                for a1 in o {
+                    v.push(U3 { t: (t0, 1), a: [a0, a1], n: 7 });
+                }
+            }
+        }
+        v
+    }
+    fn unsupported(&self) -> bool {
+        self.t.0.is_none() || self.a.iter().any(|x| x.is_none())
+    }
+}
+
 /// a newtype STRUCT at the root (serializers see through it; the document deserializer must as well)
 #[derive(Serialize, Deserialize, PartialEq, Debug, Clone)]
 pub struct RootNewt(pub Inner);
@@ -573,6 +599,7 @@ pub fn run_family<C: Check>(c: &C, tier: Tier) -> (Acc, Vec<(String, usize)>) {
     run_one::<R9, C>(c, tier, &mut total, &mut sizes);
     run_one::<U1, C>(c, tier, &mut total, &mut sizes);
     run_one::<U2, C>(c, tier, &mut total, &mut sizes);
+    run_one::<U3, C>(c, tier, &mut total, &mut sizes);
     run_one::<E, C>(c, tier, &mut total, &mut sizes);
     run_one::<Vec<Inner>, C>(c, tier, &mut total, &mut sizes);
     run_one::<Inner, C>(c, tier, &mut total, &mut sizes);
